@@ -13,7 +13,9 @@
 
    Reported types are the generic tree of AbiT.v in the shape harness `abi_term` prints.  The nested-offset sum
    is the generated term `abi_nested_add` (checked for the text `ofs + offset`, saturating for
-   `ofs.saturating_add(offset)`); `abi_impl` takes it as a parameter so that both can be talked about. *)
+   `ofs.saturating_add(offset)`); `abi_impl` takes it as a parameter so that both can be talked about.  Likewise the
+   guard on flattening a nested packed encoding (`abi_nested_fit`: repaired = every nested element must stay inside
+   the word its span starts in, pinned = no guard) is a parameter `fit` of `packed_loop` / `abi_impl`. *)
 From Coq Require Import String.
 From SLX Require Import Base Word256 gen.Constants gen.ValueSig gen.WordUseTable gen.RulesSig SymVal TypeExpr AbiT Layout Register.
 Open Scope string_scope.
@@ -124,9 +126,38 @@ Fixpoint shift_pairs (nested_add : N -> N -> outcome N unit) (offset : N) (xs : 
       end
   end.
 
+(* AbiType::bit_width (src/tc/abi.rs), driven by the table of arms read from the source (gen/RulesSig.v
+   `bit_width_table`): the declared size/length field, 8 * length (saturating) for Bytes, a constant, else None *)
+Fixpoint bw_lookup (l : list (string * bw_kind)) (name : string) : option bw_kind :=
+  match l with
+  | [] => None
+  | (n, k) :: r => if String.eqb name n then Some k else bw_lookup r name
+  end.
+
+Definition bit_width (a : aty) : option N :=
+  match a with
+  | AT name nums _ =>
+      match bw_lookup bit_width_table name with
+      | Some BwField => opt_num nums
+      | Some BwBytes => option_map (fun l => usize_sat_mul l BYTE_SIZE_BITS) (opt_num nums)
+      | Some (BwConst n) => Some n
+      | None => None
+      end
+  end.
+
+(* the test applied to every element (ty, ofs) of a nested encoding, for a span starting at bit `start_in_word` of
+   its word:  let start = start_in_word.saturating_add(ofs);
+              start < WORD_SIZE_BITS && ty.bit_width().map_or(true, |w| start.saturating_add(w) <= WORD_SIZE_BITS) *)
+Definition pair_fits (start_in_word : N) (p : aty * N) : bool :=
+  let start := usize_sat_add start_in_word (snd p) in
+  (start <? WORD_SIZE_BITS) &&
+  match bit_width (fst p) with None => true | Some w => usize_sat_add start w <=? WORD_SIZE_BITS end.
+
 (* the loop over the spans of a Packed class; `rec v seen` resolves the class of a span's type with
-   ParentType::Packed *)
-Fixpoint packed_loop (nested_add : N -> N -> outcome N unit)
+   ParentType::Packed.  `fit` = the generated anchor `abi_nested_fit`: true for the repaired text (a nested
+   encoding is flattened only if all its elements stay inside the word the span starts in, otherwise the span
+   contributes the single pair (Any, offset)); false for the pinned text (always flattened). *)
+Fixpoint packed_loop (nested_add : N -> N -> outcome N unit) (fit : bool)
     (rec : tyvar -> list te -> outcome (abi_value * list te) abi_err)
     (l : list span) (sn : list te) (pairs : list (aty * N)) : outcome (list (aty * N) * list te) abi_err :=
   match l with
@@ -136,17 +167,20 @@ Fixpoint packed_loop (nested_add : N -> N -> outcome N unit)
       | Err x => Err x
       | Panic p => Panic p
       | Ok (APacked xs, sn') =>
-          match shift_pairs nested_add (s_off s) xs with
-          | Ok sh => packed_loop nested_add rec l' sn' (pairs ++ sh)
-          | Err x => Err x
-          | Panic p => Panic p
-          end
-      | Ok (AType ty, sn') => packed_loop nested_add rec l' sn' (pairs ++ [(ty, s_off s)])
+          if negb fit || forallb (pair_fits (s_off s mod WORD_SIZE_BITS)) xs then
+            match shift_pairs nested_add (s_off s) xs with
+            | Ok sh => packed_loop nested_add fit rec l' sn' (pairs ++ sh)
+            | Err x => Err x
+            | Panic p => Panic p
+            end
+          else packed_loop nested_add fit rec l' sn' (pairs ++ [(a_any, s_off s)])
+      | Ok (AType ty, sn') => packed_loop nested_add fit rec l' sn' (pairs ++ [(ty, s_off s)])
       end
   end.
 
 Section AbiImpl.
   Variable nested_add : N -> N -> outcome N unit.
+  Variable fit : bool.
   Variable env : abi_env.
 
   (* a component type: the recursive call with ParentType::Other, then expect_type *)
@@ -191,7 +225,7 @@ Section AbiImpl.
                 | DynamicArray element =>
                     sub_type other element seen (fun tp sn => Ok (AType (AT "DynArray" [] [tp]), sn))
                 | Packed types is_struct =>
-                    match packed_loop nested_add (fun v sn => abi_impl f v sn PPacked) types seen [] with
+                    match packed_loop nested_add fit (fun v sn => abi_impl f v sn PPacked) types seen [] with
                     | Ok (pairs, sn) => Ok (packed_result parent is_struct pairs, sn)
                     | Err x => Err x
                     | Panic p => Panic p
@@ -255,7 +289,11 @@ Definition abi_fuel (data : list (tyvar * list te)) : nat := S (length data).
 Definition env_of_state (st : tcs) : abi_env := env_of (infs st) (map fst (exprs st)).
 
 Definition layout_of_state (st : tcs) : outcome (list entry) abi_err :=
-  build_layout abi_nested_add (env_of_state st) (abi_fuel (infs st)) (values st) [].
+  build_layout abi_nested_add abi_nested_fit (env_of_state st) (abi_fuel (infs st)) (values st) [].
+
+(* the pinned variant (before the nested-encoding repair): nested encodings are always flattened *)
+Definition layout_of_state_pinned (st : tcs) : outcome (list entry) abi_err :=
+  build_layout abi_nested_add false (env_of_state st) (abi_fuel (infs st)) (values st) [].
 
 (* ---- the span discipline under which reported offsets stay inside the slot (C12) ----
    Over an explicit class table `cls` (variable -> resolved type expression).  `wd_min v` is the least width a
